@@ -39,6 +39,8 @@ def run(case):
                 return "step %d: instance %d vanished %.6gs after its last access (timeout %.6gs)" % (step, ids.index(u), now() - last[u], tmo[u])
         return None
     gone = set()
+    held = []
+    held_ids = set()
     for step, op in enumerate(case):
         if op[0] == "create":
             u = start(client, timeout=op[1]); ids.append(u); last[u] = now()
@@ -48,6 +50,21 @@ def run(case):
             bad = expect(step)
         elif op[0] == "advance":
             FakeClock.advance(op[1]); bad = None
+        elif op[0] == "hold":
+            # a stream in progress (instance locked) that nobody reads any more: it times out like any other instance
+            live = [u for u in ids if u not in gone and not expired(u)]
+            bad = None
+            if live:
+                u = live[op[1] % len(live)]
+                r = client.post("/%s/stream-steps" % u, buffered=False)
+                it = iter(r.response)
+                try:
+                    next(it); next(it)
+                except StopIteration:
+                    pass
+                held.append((r, it)); held_ids.add(u)
+                last[u] = now()
+                bad = expect(step)
         elif op[0] == "metrics":
             r = client.get("/full-metrics" if op[1] else "/metrics")
             bad = expect(step)
@@ -78,7 +95,7 @@ def run(case):
                     gone.add(u)
                 bad = expect(step)
             else:
-                if not (200 <= r.status_code < 300):
+                if not (200 <= r.status_code < 300) and not (op[2] == "step" and u in held_ids):
                     return "step %d: live instance %d refused %s with %d" % (step, ids.index(u), op[2], r.status_code)
                 last[u] = now()
                 bad = expect(step)
@@ -106,6 +123,8 @@ def gen(rnd):
             case.append(('metrics', rnd.random() < 0.7))
         elif r < 0.65:
             case.append(('create', {'seconds': rnd.choice([1, 2, 90])}))
+        elif r < 0.72:
+            case.append(('hold', rnd.randint(0, 5)))
         else:
             case.append(('access', rnd.randint(0, 5), rnd.choice(['keep', 'step', 'results'])))
     return case
